@@ -180,7 +180,7 @@ func c11Doc(t *rapid.T, op string, nroots int, failing map[int]bool, heading boo
 		bad := failing[i]
 		kind := 0
 		if bad {
-			kind = rapid.IntRange(0, 2).Draw(t, "failkind")
+			kind = rapid.IntRange(0, 3).Draw(t, "failkind")
 		}
 		rootLine := "- " + root
 		kidIndent := "  "
@@ -192,6 +192,8 @@ func c11Doc(t *rapid.T, op string, nroots int, failing map[int]bool, heading boo
 		switch {
 		case bad && kind == 0: // parse error in the block
 			sb.WriteString(kidIndent + "x no bullet\n")
+		case bad && kind == 3: // an item nested two levels deeper than the row before it (the unit is known from earlier blocks)
+			sb.WriteString(kidIndent + "- " + kid + "\n" + kidIndent + "    - too-deep\n" + kidIndent + "  - after\n")
 		case bad && kind == 1 && (op == "dryrun" || op == "verify" || op == "mkdir"): // validation error
 			sb.WriteString(kidIndent + "- a/b\n")
 		case bad && kind == 2 && op == "verify": // verify mismatch: this root is missing from the directory
@@ -228,9 +230,11 @@ func c11Gen(race bool) *rapid.Generator[c11Case] {
 		case 0:
 			c.Faults.ReaderFailAt = rapid.IntRange(0, len(c.Doc)).Draw(t, "readerAt")
 			c.Faults.ReaderMode = rapid.IntRange(0, 1).Draw(t, "readerMode")
+			c.Faults.ErrKind = rapid.IntRange(0, 5).Draw(t, "errKind")
 		case 1:
 			c.Faults.WriterFailAt = rapid.IntRange(0, 3*nroots).Draw(t, "writerAt")
 			c.Faults.WriterShort = rapid.IntRange(0, 2).Draw(t, "short")
+			c.Faults.ErrKind = rapid.IntRange(0, 5).Draw(t, "errKind")
 		case 2:
 			c.Faults.CallbackFailAt = rapid.IntRange(0, 3*nroots).Draw(t, "cbAt")
 		}
